@@ -11,8 +11,8 @@
     * `dom` finite, closed under `deps`, every goal of `dom` ground;
     * stratification `lvl : Nat → Nat`: along every dependency `k → j` inside `dom`, `lvl j ≤ lvl k`, and
       `lvl j < lvl k` if `j` and `k` differ in polarity.  This implies that no cycle mixes polarities
-      (`no_mixed_cycle_of_lvl`); for a finite graph the converse holds too (number the SCCs
-      topologically) but is not needed and not proved;
+      (`no_mixed_cycle_of_lvl`); the converse (no mixed cycle ⇒ a stratification exists: count the goals
+      reachable from each goal) is `Props/C05strat.lean`, `stratification_exists`;
     * `P` is a stratified truth predicate (`Mix.Strat inst P`): a fixed point of
       `T(S) = {k | ∃ alt ∈ deps k, ∀ j ∈ alt, j ∈ S}` such that every set of COINDUCTIVE goals that is
       `T`-justified relative to `P` lies in `P` (greatest on coinductive goals) and every set of
